@@ -90,17 +90,17 @@ func materializeFlat(es []flatEntry, dir string) error {
 			if err := os.Symlink(e.St.Linkname, p); err != nil {
 				return err
 			}
+		case e.St.Linkname != "":
+			// a further name of an inode — regular file, device or fifo alike
+			if err := os.Link(filepath.Join(dir, e.St.Linkname), p); err != nil {
+				return err
+			}
+			continue
 		case m&os.ModeNamedPipe != 0, m&os.ModeDevice != 0, m&os.ModeSocket != 0:
 			if err := unix.Mknod(p, um, int(unix.Mkdev(uint32(e.St.Devmajor), uint32(e.St.Devminor)))); err != nil {
 				return err
 			}
 		default:
-			if e.St.Linkname != "" {
-				if err := os.Link(filepath.Join(dir, e.St.Linkname), p); err != nil {
-					return err
-				}
-				continue
-			}
 			if err := os.WriteFile(p, e.Content, 0600); err != nil {
 				return err
 			}
@@ -116,7 +116,7 @@ func materializeFlat(es []flatEntry, dir string) error {
 	}
 	for i := len(es) - 1; i >= 0; i-- {
 		e := es[i]
-		if os.FileMode(e.St.Mode)&os.ModeType == 0 && e.St.Linkname != "" {
+		if m := os.FileMode(e.St.Mode); !m.IsDir() && m&os.ModeSymlink == 0 && e.St.Linkname != "" {
 			continue
 		}
 		if err := lutimes(filepath.Join(dir, e.St.Path), e.St.ModTime); err != nil {
@@ -570,13 +570,14 @@ func c05StripX(ns []*MNode) {
 	}
 }
 
-// c05FixLinks: a hard-link entry must name an earlier regular non-link entry that still exists,
-// and carries its metadata and content (one inode)
+// c05FixLinks: a hard-link entry (regular file, device or fifo with a Linkname) must name an
+// earlier non-link entry of that kind that still exists, and carries its metadata and content
+// (one inode)
 func c05FixLinks(es []flatEntry) {
 	ok := map[string]*flatEntry{}
 	for i := range es {
 		e := &es[i]
-		if os.FileMode(e.St.Mode)&os.ModeType != 0 {
+		if m := os.FileMode(e.St.Mode); m.IsDir() || m&os.ModeSymlink != 0 {
 			continue
 		}
 		if e.St.Linkname == "" {
@@ -1087,7 +1088,98 @@ func c05Filtered(g *Gen) {
 	g.Note("directed_filter_cases", n)
 }
 
+// c05SpecialLinks: LINK GROUPS OF SPECIAL FILES — a fifo, a character device and a block device
+// with two or three names across directories, next to a regular link group — as the source,
+// over a destination that lacks them / holds them / holds every name as an inode of its own /
+// holds some names / holds a name as a regular file.  A further name of a device or fifo is a
+// hard link like any other (os.Link): one inode at the destination.  emit(A, B, class).
+func c05SpecialLinks(g *Gen, emit func(A, Bl []flatEntry, cls string)) {
+	r := g.Rng
+	mk := func(p string, mode os.FileMode, maj, min int64, mt int64) flatEntry {
+		return flatEntry{&types.Stat{Path: p, Mode: uint32(mode), Uid: 1, Devmajor: maj, Devminor: min, ModTime: mt * 1e9}, nil}
+	}
+	link := func(p string, to flatEntry) flatEntry {
+		st := to.St.CloneVT()
+		st.Path, st.Linkname = p, to.St.Path
+		return flatEntry{st, to.Content}
+	}
+	for variant := 0; variant < 6; variant++ {
+		for three := 0; three < 2; three++ {
+			d1 := flatEntry{&types.Stat{Path: "d1", Mode: uint32(os.ModeDir | 0755), ModTime: 1700000000e9}, nil}
+			d2 := flatEntry{&types.Stat{Path: "d2", Mode: uint32(os.ModeDir | 0750), ModTime: 1700000001e9}, nil}
+			b := mk("d1/b", os.ModeDevice|0600, 7, int64(variant), 1600000001)
+			f := flatEntry{&types.Stat{Path: "d1/f", Mode: 0644, ModTime: 1600000002e9}, []byte("shared")}
+			p := mk("d1/p", os.ModeNamedPipe|0640, 0, 0, 1600000003)
+			q := mk("d1/q", os.ModeDevice|os.ModeCharDevice|0620, 1, 3, 1600000004)
+			Bl := []flatEntry{d1, b, f, p, q, d2, link("d2/b2", b), link("d2/p2", p)}
+			if three == 1 {
+				Bl = append(Bl, link("d2/q2", q))
+			}
+			Bl = append(Bl, mk("lone", os.ModeNamedPipe|0600, 0, 0, 1600000005), link("zf", f), link("zq", q))
+			if three == 1 {
+				Bl = append(Bl, link("zp", p))
+			}
+			var A []flatEntry
+			cls := "directed-special-link-groups-"
+			switch variant {
+			case 0:
+				cls += "fresh"
+			case 1:
+				A = c02CloneEntries(Bl)
+				cls += "same"
+			case 2:
+				A = c02CloneEntries(Bl)
+				for _, e := range A {
+					if os.FileMode(e.St.Mode)&os.ModeSymlink == 0 {
+						e.St.Linkname = ""
+					}
+				}
+				cls += "split"
+			case 3:
+				for _, e := range c02CloneEntries(Bl) {
+					if os.FileMode(e.St.Mode).IsDir() || r.Chance(60) {
+						A = append(A, e)
+					}
+				}
+				cls += "names-missing"
+			case 4:
+				A = c02CloneEntries(Bl)
+				for _, e := range A {
+					if e.St.Linkname != "" && r.Bool() {
+						e.St = &types.Stat{Path: e.St.Path, Mode: 0600, ModTime: 1600000009e9}
+						e.Content = []byte("old")
+					}
+				}
+				cls += "name-retyped"
+			case 5:
+				A = c02CloneEntries(Bl)
+				for _, e := range A {
+					m := os.FileMode(e.St.Mode)
+					if m&os.ModeType != 0 && !m.IsDir() && e.St.Linkname == "" && r.Bool() {
+						e.St.Mode ^= 0022
+						e.St.Uid += 2
+					}
+				}
+				cls += "group-metadata"
+			}
+			sortEntries(Bl)
+			sortEntries(A)
+			c05FixLinks(A)
+			emit(A, c02CloneEntries(Bl), cls)
+		}
+	}
+}
+
 func genC05(g *Gen) {
+	c05SpecialLinks(g, func(A, Bl []flatEntry, cls string) {
+		for _, mode := range []int{0, 1} {
+			c := cls
+			if mode == 1 {
+				c += "-merge"
+			}
+			c05EmitCase(g, 0x0501, 0, mode, uint64(g.Rng.Intn(3)), c02CloneEntries(A), c02CloneEntries(Bl), c)
+		}
+	})
 	c05Filtered(g)
 	c05DirReplaced(g)
 	c05LinkMeta(g, 0x0501)
